@@ -467,6 +467,26 @@ def sorted_stable(xs: List[int]) -> bool:
   return _same(lambda B: B(pairs, key=lambda p: p[0]), sorted)
 
 
+def sorted_stable_reverse(xs: List[int], b: bool) -> bool:
+  """
+  pre: len(xs) <= 4
+  post: _
+  """
+  # ties under the key keep their original order, also in reverse order
+  pairs = [(v % 2, i) for i, v in enumerate(xs)]
+  return (_same(lambda B: B(pairs, key=lambda p: p[0], reverse=b), sorted) and
+          _same(lambda B: B(pairs, key=lambda p: p[0], reverse=1), sorted))
+
+
+def sorted_reverse_badtype(xs: List[int], s: str) -> bool:
+  """
+  pre: len(xs) <= 2 and len(s) <= 1
+  post: _
+  """
+  return (_same(lambda B: B(xs, reverse=s), sorted) and _same(lambda B: B(xs, reverse=None), sorted) and
+          _same(lambda B: B(xs, key=abs, reverse=s), sorted))
+
+
 # -- print --------------------------------------------------------------------
 def print_values(x: int, s: str, b: bool) -> bool:
   """
